@@ -59,7 +59,7 @@ def r1(rr, repo):
     steps = []
     for n in ast.walk(pf):
         if isinstance(n, ast.NamedExpr) and isinstance(n.target, ast.Name) and isinstance(n.value, ast.BinOp) and isinstance(n.value.op, ast.Add) \
-                and isinstance(n.value.left, ast.Name) and n.value.left.id == n.target.id and isinstance(n.value.right, ast.Constant):
+                and isinstance(n.value.left, ast.Name) and n.value.left.id == n.target.id and isinstance(n.value.right, ast.Constant) and 'port' in n.target.id:
             steps.append((n, n.target.id, n.value.right.value))
         elif isinstance(n, ast.AugAssign) and isinstance(n.op, ast.Add) and isinstance(n.target, ast.Name) and isinstance(n.value, ast.Constant) and 'port' in n.target.id:
             steps.append((n, n.target.id, n.value.value))
@@ -306,12 +306,51 @@ def r6(rr, repo):
                         parts = [U(v.value) for v in a.value.values if isinstance(v, ast.FormattedValue)]
                         lits = [v.value for v in a.value.values if isinstance(v, ast.Constant)]
                         ok2 = parts == [kname, iname] and not lits and start is not None
+    # second idiom: one loop over the group that tries candidates until one is free - `cand = <class name> if len(group) == 1 else None`, `while cand is None or cand in USED: cand = f'{name}{(i := i + 1)}'`,
+    # `cfg.id = cand`, `USED.add(cand)` - the counter only moves up and every id handed out is recorded, so generated ids are distinct and clear of whatever USED held before
+    avoid = None
+    inner = [s_ for s_ in lp.body if isinstance(s_, ast.For) and U(s_.iter) == vname and isinstance(s_.target, ast.Name)]
+    if not ifs and len(inner) == 1:
+        cname = inner[0].target.id
+        body = inner[0].body
+        whiles = [w for w in body if isinstance(w, ast.While)]
+        stores = [a for a in body if isinstance(a, ast.Assign) and U(a.targets[0]) == f'{cname}.id' and isinstance(a.value, ast.Name)]
+        if len(whiles) == 1 and len(stores) == 1:
+            cand = stores[0].value.id
+            w = whiles[0]
+            conj = [U(v) for v in w.test.values] if isinstance(w.test, ast.BoolOp) and isinstance(w.test.op, ast.Or) else [U(w.test)]
+            taken = [c for c in conj if c.startswith(f'{cand} in ')]
+            used = taken[0][len(f'{cand} in '):] if taken else None
+            init = [a for a in body if isinstance(a, ast.Assign) and U(a.targets[0]) == cand and a.lineno < w.lineno]
+            single_first = bool(init) and isinstance(init[0].value, ast.IfExp) and U(init[0].value.body) == kname and U(init[0].value.test) == f'len({vname}) == 1' and U(init[0].value.orelse) == 'None' and f'{cand} is None' in conj
+            gen = [a for a in w.body if isinstance(a, ast.Assign) and U(a.targets[0]) == cand and isinstance(a.value, ast.JoinedStr)]
+            numbered = False
+            if len(gen) == 1:
+                fv = [v.value for v in gen[0].value.values if isinstance(v, ast.FormattedValue)]
+                lits = [v for v in gen[0].value.values if isinstance(v, ast.Constant)]
+                numbered = len(fv) == 2 and U(fv[0]) == kname and not lits and isinstance(fv[1], ast.NamedExpr) and isinstance(fv[1].value, ast.BinOp) and isinstance(fv[1].value.op, ast.Add) and \
+                    U(fv[1].value.left) == U(fv[1].target) and isinstance(fv[1].value.right, ast.Constant) and fv[1].value.right.value == 1
+                ctr = U(fv[1].target) if numbered else None
+                zero = [a for a in lp.body if isinstance(a, ast.Assign) and U(a.targets[0]) == ctr and isinstance(a.value, ast.Constant) and a.value.value == 0 and a.lineno < inner[0].lineno]
+                numbered = numbered and bool(zero)
+            recorded = used is not None and any(isinstance(c, ast.Call) and U(c.func) == f'{used}.add' and c.args and U(c.args[0]) == cand for a in body for c in ast.walk(a) if a.lineno > stores[0].lineno or a is stores[0])
+            ok1 = single_first and stores[0].lineno > w.lineno
+            ok2 = numbered and recorded and stores[0].lineno > w.lineno
+            if used is not None:
+                seeds = [a for a in walk_scope(pf) if isinstance(a, ast.Assign) and U(a.targets[0]) == used and a.lineno < lp.lineno]
+                holds_user = bool(seeds) and isinstance(seeds[-1].value, (ast.SetComp, ast.Call)) and '.id' in U(seeds[-1].value) and 'filters' in U(seeds[-1].value) and 'is not None' in U(seeds[-1].value)
+                avoid = (holds_user and recorded, f'{cand} in {used}; {used} = {U(seeds[-1].value)[:80] if seeds else "?"}')
     id_stores = [a for a in ast.walk(lp) if isinstance(a, ast.Assign) and any(isinstance(t, ast.Attribute) and t.attr == 'id' for t in a.targets)]
+    if ifs and (ok1 or ok2):
+        avoid = (False, 'Name / Name1, Name2, ... are handed out without looking at the ids the user gave: `- Util --id Util1 - Util - Util` is refused as a duplicate the user never wrote')
+    if avoid is not None:
+        rr.ob('a generated id never repeats an id the user gave another filter (it is tried against the set of ids that are taken, which starts as the user-given ones and grows with every id handed out)', avoid[0], cmod, lp,
+              witness=avoid[1], key='generated-avoid-user-ids')
     for flag, text, key in ((ok1, 'the only unnamed filter of a class is named after the class', 'single-name'),
                             (ok2, 'several unnamed filters of a class get class name + their own running number (distinct by construction)', 'multi-name')):
         if flag:
             rr.holds(text, cmod, lp, key=key)
-        elif len(id_stores) == 2 and ifs:
+        elif (len(id_stores) == 2 and ifs) or (not ifs and len(inner) == 1 and avoid is not None):
             rr.violated(text + ' - the naming loop assigns something else', cmod, lp, witness=' ; '.join(U(a) for a in id_stores)[:160], key=key)
         else:
             rr.unresolved('the naming loop has a shape the rule does not know (' + key + ')', cmod, lp, witness=' ; '.join(U(a) for a in id_stores)[:160], key=key)
